@@ -33,6 +33,7 @@ type C37dPlan struct {
 	Txs      bool     `json:"txs"`
 	Readers  int      `json:"readers"`
 	TwoBlock bool     `json:"two_block_feeders"`
+	TxRounds int      `json:"tx_rounds,omitempty"` // the submitter offers every transaction this many times (0 = once)
 }
 
 func genC37d(rt *rapid.T) any {
@@ -167,10 +168,12 @@ func runSched(t *testing.T, p *C37dPlan, r *simkit.Run, forC23 bool) {
 		}
 		if p.Txs {
 			sched.Client("txs", func() {
-				for _, pr := range rest {
-					for _, tx := range w.Blocks[pr.Hash].Transactions[1:] {
-						victim.Chain.ValidateTx(tx)
-						calls++
+				for round := 0; round <= p.TxRounds; round++ {
+					for _, pr := range rest {
+						for _, tx := range w.Blocks[pr.Hash].Transactions[1:] {
+							victim.Chain.ValidateTx(tx)
+							calls++
+						}
 					}
 				}
 			})
